@@ -96,7 +96,7 @@ PROPS = {
         "assumptions": COMMON_ASSUME,
     },
     "C07": {
-        "rules": ["R-STATE", "R-INITCOVER", "R-EXTENT", "R-KILLUSE", "R-DANGLING", "R-ALPHAGUARD", "R-DEDUP", "R-IDGUARD", "R-SHIFT", "R-CLAMP", "R-ZEROFILL", "R-GROW", "R-SLACK", "R-ALLOCFORM", "R-LOCKSET", "R-BYTEINDEX", "R-REFCOUNT"],
+        "rules": ["R-STATE", "R-INITCOVER", "R-EXTENT", "R-KILLUSE", "R-DANGLING", "R-ALPHAGUARD", "R-DEDUP", "R-IDGUARD", "R-SHIFT", "R-CLAMP", "R-ZEROFILL", "R-GROW", "R-SLACK", "R-ALLOCFORM", "R-LOCKSET", "R-BYTEINDEX", "R-REFCOUNT", "R-COUNTERWIDTH"],
         "explanation": "Structural preconditions of memory safety, each a necessary condition with confirmed instances: no operation consults state the "
                        "creation path never set, saved extents equal allocated extents, nothing reachable from a dictionary is freed by an operation or "
                        "left dangling by a loader, pattern bytes are range-checked before indexing, duplicate iterators have their sentinel, ids are "
@@ -107,7 +107,8 @@ PROPS = {
                     "growth guards re-test after growing (R-GROW, loop form)", "PFC guard slack covers the largest appended extent for every length / shared prefix (R-SLACK)", "release form matches allocation form for every pointer field (R-ALLOCFORM)",
                     "the shared parts vector that the producer grows is indexed by workers only under its mutex: no access to a reallocated buffer (R-LOCKSET)",
                     "tables indexed by an arbitrary byte value have >= 256 entries on every path that creates them, loaders included (R-BYTEINDEX)",
-                    "the RRR offset table shared through a static pointer is acquired once by every constructor and released with the pointer reset (R-REFCOUNT)"],
+                    "the RRR offset table shared through a static pointer is acquired once by every constructor and released with the pointer reset (R-REFCOUNT)",
+                    "no length / size handed to a container is counted in a local narrower than 32 bits (R-COUNTERWIDTH)"],
         "not_decided": ["all index arithmetic over decoded data (bucket scans, chunk decoding with b_remain, expandRule recursion depth, scratch buffers sized "
                         "from maxlength/maxcomplength), buffer growth estimates, suffix sorting on tiny inputs, termination: a pass means the structural "
                         "preconditions hold, not that the library is memory safe"],
@@ -135,13 +136,14 @@ PROPS = {
         "assumptions": COMMON_ASSUME,
     },
     "C17": {
-        "rules": ["R-SHIFT", "R-SETFIELD", "R-VBYTE", "R-MIRROR", "R-EXTENT", "R-ZEROFILL", "R-NARROW"],
+        "rules": ["R-SHIFT", "R-SETFIELD", "R-VBYTE", "R-MIRROR", "R-EXTENT", "R-ZEROFILL", "R-NARROW", "R-COUNTERWIDTH"],
         "explanation": "For the packed integer array the shift amounts of get_field/set_field/maxVal are evaluated from the source expressions over the whole "
                        "finite domain (width 1..64 x in-word offset 0..63) under the guards that dominate each shift: exact. Save/load agreement and "
                        "allocation extents for LogSequence, DAC_VLS, DAC_BVLS; zero-fill before read-modify-write packing.",
         "decided": ["no shift by >= operand width for any width 1..64 and offset, incl. fields straddling a word (R-SHIFT)",
                     "LogSequence / DAC_VLS / DAC_BVLS survive save/load structurally (R-MIRROR, R-EXTENT)", "packed arrays are filled before set_field/bitset (R-ZEROFILL)", "VByte encoder/decoder (both copies) agree on group width, mask, terminator bit and threshold, and no decoder loop bound cuts off the groups a 32-bit value needs (R-VBYTE)", "set_field clears before it sets (R-SETFIELD)",
-                    "no save writes a data member through a narrower scalar type than the member has (R-NARROW)"],
+                    "no save writes a data member through a narrower scalar type than the member has (R-NARROW)",
+                    "no length / size handed to a container is counted in a local narrower than 32 bits (R-COUNTERWIDTH)"],
         "not_decided": ["round trip of values, DAC level layout, VByte codec value round trip (value-level)"],
         "assumptions": COMMON_ASSUME,
     },
